@@ -390,20 +390,23 @@ Definition shape_ok (c : ckind) (xs : list obj) : bool :=
      the model does not represent (those graphs are covered by the correspondence and the oracle only). *)
 Definition ref_into (imm : list Z) (x : obj) : bool := match x with ORef k => mem k imm | _ => false end.
 
-Fixpoint wf_at (sc : bool) (vis imm : list Z) (n : Z) (t : obj) : option (list Z) :=
+(* `strict` = true: the guard of the pointer-machine theorems (third clause included); `strict` = false: the third clause
+   is dropped -- every graph the sender can emit except the known-defective region (used with the Deferred-level
+   machine of ObjDefer.v, which represents deferred completion). *)
+Fixpoint wf_gen (strict : bool) (sc : bool) (vis imm : list Z) (n : Z) (t : obj) : option (list Z) :=
   match t with
   | ORef k => if sc && mem k vis then Some vis else None
   | OCont c xs =>
     let imm' := if is_imm_c c then n :: imm else imm in
     if shape_ok c xs
        && negb (hazard_pos c false (vals_list (n + 1) xs) (fun k => mem k imm'))
-       && negb (match c with CTuple | CFrozen => existsb (ref_into imm') xs | _ => false end) then
+       && negb (strict && match c with CTuple | CFrozen => existsb (ref_into imm') xs | _ => false end) then
       let sc' := sc || is_scope c in
       let vis1 := if sc' && tracked c then n :: vis else vis in
       match (fix go (v : list Z) (m : Z) (l : list obj) : option (list Z) :=
                match l with
                | [] => Some v
-               | x :: r => match wf_at sc' v imm' m x with Some v' => go v' (m + opens x) r | None => None end
+               | x :: r => match wf_gen strict sc' v imm' m x with Some v' => go v' (m + opens x) r | None => None end
                end) vis1 (n + 1) xs with
       | Some v => Some (if is_scope c then vis else v)
       | None => None
@@ -411,16 +414,22 @@ Fixpoint wf_at (sc : bool) (vis imm : list Z) (n : Z) (t : obj) : option (list Z
     else None
   | _ => Some vis
   end.
-Definition wf_list (sc : bool) (imm : list Z) := fix go (v : list Z) (m : Z) (l : list obj) : option (list Z) :=
+Definition wf_list_gen (strict : bool) (sc : bool) (imm : list Z) := fix go (v : list Z) (m : Z) (l : list obj) : option (list Z) :=
   match l with
   | [] => Some v
-  | x :: r => match wf_at sc v imm m x with Some v' => go v' (m + opens x) r | None => None end
+  | x :: r => match wf_gen strict sc v imm m x with Some v' => go v' (m + opens x) r | None => None end
   end.
+Definition wf_at := wf_gen true.
+Definition wf_list := wf_list_gen true.
+Definition wf_wide := wf_gen false.
+Definition wf_list_wide := wf_list_gen false.
 
 (* a term is a complete message for a receiver whose counter is n: top level of a connection
    (no scope: storage's root is scoped, a Broker's is not) *)
 Definition wf_obj (scoped_root : bool) (n : Z) (t : obj) : bool :=
   match wf_at scoped_root [] [] n t with Some _ => true | None => false end.
+Definition wf_obj_wide (scoped_root : bool) (n : Z) (t : obj) : bool :=
+  match wf_wide scoped_root [] [] n t with Some _ => true | None => false end.
 
 (* no references at all: plain trees *)
 Fixpoint noref (t : obj) : bool :=
